@@ -59,39 +59,83 @@ def verify_synced_before(a, fs, state0, disks):
     return scen.verify_tree(a, fs, sub, disks=disks, allow_extra=True)
 
 
-def diagnose_parity(a, evs, bad, base_key):
-    """Mechanism key for a parity mismatch on an interrupted image: were the mismatching parity blocks
-    never written before the last completed content save of the interrupted run?"""
+def diagnose_parity(a, evs, bad, base_key, readd=None):
+    """Mechanism key for a parity mismatch after an interruption."""
     from .. import parity as P
     if not bad or base_key != "parity-mismatch":
         return base_key
-    saves = [e.seq for e in evs if e.kind == "E" and e.cls == "content" and e.op == "rename" and e.ret == 0]
-    if not saves:
-        return base_key
-    last_save = max(saves)
     try:
         c = cnt.load(a.cpaths()[0])
     except Exception:
         return base_key
     views = P.parity_views(a, c)
-    written = set()
-    for e in evs:
-        if e.kind == "E" and e.cls == "parity" and e.op == "write" and e.ret > 0 and e.seq < last_save:
-            written.add((e.path, e.off))
-    unexplained = 0
-    for (pos, lev) in bad:
+
+    def where(pos, lev):
         i, off = views[lev].locate(pos)
         pth = os.fsencode(views[lev].paths[i]) if i is not None and views[lev].paths[i] else None
-        if (pth, off) in written:
-            unexplained += 1
-    if unexplained == 0:
-        return "parity-mismatch/content-saved-before-queued-parity-write"
-    return base_key
+        return pth, off
+
+    # mechanism 2: the killed run had already shrunk the parity file below these stripes (ftruncate comes before the
+    # content save that records the deletions), and the same data came back before the resume
+    if readd:
+        shr = {}
+        for e in evs:
+            if e.kind == "E" and e.cls == "parity" and e.op == "trunc" and e.ret == 0:
+                shr[e.path] = min(shr.get(e.path, 1 << 62), e.off)
+        if all((where(pos, lev)[0] in shr and shr[where(pos, lev)[0]] <= where(pos, lev)[1]) for (pos, lev) in bad):
+            return "parity-mismatch/parity-shrunk-by-killed-sync-then-same-data-readded"
+    # mechanism 1: the mismatching parity blocks were never written before the last completed content save of the
+    # interrupted run (autosave while the writers still hold queued writes)
+    first_copy = os.fsencode(a.cpaths()[0])
+    saves = [e.seq for e in evs if e.kind == "E" and e.cls == "content" and e.op == "rename" and e.ret == 0 and e.path2 == first_copy]
+    if len(saves) < 2:
+        return base_key  # only the pre-sync save completed: it cannot declare anything synced by this run
+    last_save = max(saves)
+    written = set()
+    dataread = set()
+    for e in evs:
+        if e.kind != "E" or e.seq >= last_save:
+            continue
+        if e.cls == "parity" and e.op == "write" and e.ret > 0:
+            written.add((e.path, e.off))
+        elif e.cls == "data" and e.op == "read" and e.ret > 0:
+            dataread.add((e.path, e.off))
+    sm = c.stripe_map()
+    n2i = {n.encode(): i for i, n in enumerate(a.disk_names)}
+    for (pos, lev) in bad:
+        if where(pos, lev) in written:
+            return base_key
+        # the stripe must have been processed (its data read) before that save
+        processed = False
+        for e_ in sm.get(pos, []):
+            if e_[1] == "file":
+                pth = os.path.join(os.fsencode(a.ddir(n2i[c.disk_name(e_[0])])), e_[2].sub)
+                if (pth, e_[3] * c.blocksize) in dataread:
+                    processed = True
+        if not processed:
+            return base_key
+    return "parity-mismatch/content-saved-before-queued-parity-write"
 
 
-def followup(a, fs, res, label, replay, variant, state_final, nlev_loss_rng, killed_events=None):
+def followup(a, fs, res, label, replay, variant, state_final, nlev_loss_rng, killed_events=None, readd=None):
     """sync again -> exit 0 -> parity oracle -> sampled recovery -> check."""
     V = res["violations"]
+    if readd:
+        # between the interruption and the resume the user brings back data that was pending deletion,
+        # under another name (same bytes): nothing may be trusted from before the interruption
+        state_final = {d: dict(es) for d, es in state_final.items()}
+        for (d, nm, data) in readd:
+            p = os.path.join(os.fsencode(a.ddir(d)), nm)
+            try:
+                os.makedirs(os.path.dirname(p), exist_ok=True)
+                with open(p, "wb") as f:
+                    f.write(data)
+                mt = fs.clock.next()
+                os.utime(p, ns=(mt, mt))
+                fs._remember(d, nm, data, mt)
+                state_final[d][nm] = ("file", data, mt)
+            except OSError:
+                pass
     r = a.cmd("sync", "-E", "-Z", variant=variant)
     for s in r.san:
         V.append(("sanitizer:" + A.san_key(s), "%s resume-sync: %s" % (label, s[:2500]), replay))
@@ -101,7 +145,7 @@ def followup(a, fs, res, label, replay, variant, state_final, nlev_loss_rng, kil
     probs = []
     bad = c06_oracle(a, fs, probs, {}, label + " after resume-sync")
     for key, desc in probs[:2]:
-        V.append(("resume:" + (diagnose_parity(a, killed_events, bad, key) if killed_events is not None else key), desc, replay))
+        V.append(("resume:" + (diagnose_parity(a, killed_events, bad, key, readd) if killed_events is not None else key), desc, replay))
     if probs:
         return False
     # sampled C01 recovery
@@ -147,8 +191,30 @@ def run_sync_scenario(case):
     try:
         if adds_only:
             scen.mutate(fs, rng, rng.randint(3, 7), hostile=0.1, ops=["create", "create", "copy", "mkdir"], maxblocks=4)
+        elif idx % 4 == 3:
+            # deletions only: nothing else competes for the freed positions when the data comes back
+            c0 = a.load_content()
+            sm0 = c0.stripe_map()
+            n2i = {n.encode(): i for i, n in enumerate(a.disk_names)}
+            shared = []
+            for f in c0.files:
+                d_ = n2i[c0.disk_name(f.disk)]
+                if not f.blocks or fs.links_of(d_, f.sub) or fs.entries[d_].get(f.sub, ("",))[0] != "file":
+                    continue
+                # stripes shared with another disk and not at the very end of the array (so the parity is rewritten, not cut)
+                if all(any(x[0] != f.disk and x[1] == "file" for x in sm0[p_]) for (p_, _s, _h) in f.blocks) and f.blocks[-1][0] < c0.blockmax - 1:
+                    shared.append((d_, f.sub))
+            big = shared or [(d, s_) for d in a.disks for s_, e in state0[d].items() if e[0] == "file" and len(e[1]) > 0 and not fs.links_of(d, s_)]
+            for (d_, s_) in rng.sample(big, min(len(big), rng.randint(1, 2))):
+                fs.remove(d_, s_)
         else:
             scen.mutate(fs, rng, rng.randint(4, 9), hostile=0.1, maxblocks=4)
+            # the pending set always removes at least one multi-block file synced before
+            big = [(d, s_) for d in a.disks for s_, e in state0[d].items() if e[0] == "file" and len(e[1]) > a.bs
+                   and fs.entries[d].get(s_) == e and not fs.links_of(d, s_)]
+            if big:
+                d_, s_ = rng.choice(big)
+                fs.remove(d_, s_)
         state_final = scen.recorded_state(fs)
         sync_args = ["-E", "-Z"]
         ioc = [None, "1", "3", None][idx % 4]
@@ -241,8 +307,16 @@ def run_sync_scenario(case):
                     if pr:
                         # diagnosis of the witness from the decoded block map of the interrupted state
                         torn_pos = None
-                        if mode == "kill-mid" and ptype == "kill" and muts[k - 1].cls == "parity" and muts[k - 1].op == "write":
-                            torn_pos = muts[k - 1].off // c_int.blocksize
+                        if mode == "kill-mid" and ptype == "kill":
+                            # the call that was cut is the event logged right before the injection record of the killed run
+                            prev = None
+                            for e in ev2:
+                                if e.kind == "I" and e.action == "kill-mid":
+                                    if prev is not None and prev.cls == "parity" and prev.op == "write":
+                                        torn_pos = prev.off // c_int.blocksize
+                                    break
+                                if e.kind == "E":
+                                    prev = e
                         sm = c_int.stripe_map()
                         reasons = {}
                         for p_ in pr:
@@ -262,7 +336,24 @@ def run_sync_scenario(case):
                     img.restore()
                     img.cleanup()
             # (4) resume
-            followup(a, fs, res, label, replay, variant, state_final, rng, killed_events=ev2)
+            readd = None
+            if not adds_only and rng.random() < 0.8:
+                # files recorded by the earlier sync that the pending change set removed or replaced
+                gone = [(d, s_, e[1]) for d in a.disks for s_, e in state0[d].items()
+                        if e[0] == "file" and len(e[1]) > 0 and (s_ not in state_final[d] or state_final[d][s_][0] != "file" or state_final[d][s_][1] != e[1])]
+                if gone:
+                    pick = rng.sample(gone, min(len(gone), rng.randint(1, 3)))
+                    readd = [(d, b"readd-%d-" % qi + s_.split(b"/")[-1], data) for qi, (d, s_, data) in enumerate(pick)
+                             if (b"readd-%d-" % qi + s_.split(b"/")[-1]) not in state_final[d]]
+                    # ... and removed files also come back under their own name (new time-stamp), which makes the
+                    # allocator reuse exactly the positions they had
+                    for (d, s_, data) in gone:
+                        if s_ not in state_final[d] and not any(k_.startswith(s_ + b"/") for k_ in state_final[d]) and rng.random() < 0.7:
+                            parent_ok = all((b"/".join(s_.split(b"/")[:i_]) not in state_final[d]) or state_final[d][b"/".join(s_.split(b"/")[:i_])][0] == "dir" for i_ in range(1, len(s_.split(b"/"))))
+                            if parent_ok:
+                                readd.append((d, s_, data))
+                    replay = dict(replay, readd=[evidence.jsonable(x[1]) for x in readd])
+            followup(a, fs, res, label + (" + old data re-added before the resume" if readd else ""), replay, variant, state_final, rng, killed_events=ev2, readd=readd)
             if _unmatched(res) >= 4:
                 break
         res["counters"]["points_fired"] = fired
@@ -356,11 +447,19 @@ def run_fix_scenario(case):
                         # any file written during the interrupted run could be the cut one; be strict only
                         # for files the interrupted run never touched
                         touched = False
+                        # every name of the same inode shares the time-stamp (hard links)
+                        same_inode = {os.path.join(os.fsencode(a.ddir(k2[0])), k2[1]) for k2, v2 in now.items() if v2[0] == "file" and v2[3] == y[3] and k2[0] == key[0]}
                         for e in shimlog.parse(r.events):
-                            if e.kind == "E" and e.path == pth and e.op in ("write", "open", "utime", "trunc"):
+                            if e.kind == "E" and (e.path in same_inode or e.path2 in same_inode) and e.op in ("write", "open", "utime", "trunc", "link"):
                                 touched = True
                         if not touched:
                             diffs.append((key, "mtime differs"))
+            if diffs and os.environ.get("VERIF_DEBUG"):
+                for key, what in diffs[:3]:
+                    pth = os.path.join(os.fsencode(a.ddir(key[0])), key[1])
+                    print("DEBUG", what, key, "twin", twin_tree.get(key), "now", now.get(key))
+                    print("  events on it in killed run:", [(e.op, e.ret, e.off, e.len) for e in shimlog.parse(r.events) if e.kind == "E" and e.path == pth])
+                    print("  state0 entry:", {k2: (v2[0], len(v2[1]) if v2[0] == "file" else v2[1:], v2[2] if v2[0] == "file" else None) for k2, v2 in state0[key[0]].items() if k2 == key[1] or (v2[0] == "hardlink" and (v2[1] == key[1] or k2 == key[1]))})
             if diffs:
                 res["violations"].append(("second-fix-result-differs:" + diffs[0][1].split("/")[0], "%s: %s" % (label, evidence.jsonable(diffs[:4])), replay))
             elif a.parity_bytes() != twin_parity and twin_rc == 0:
